@@ -351,6 +351,10 @@ package kv
 //@   at field:Created ghost vacLastChildOld = oldEnough(childRoot, olderThan)
 //@   at if#5 assert kept-back-only-for-an-own-successor: imp(tooNew, !vacLastChildOld)
 //@   ensures imp(err != nil, len(result0) == 0 && len(result1) == 0)
+// every version that stays (C09, C11) has its nodes withdrawn from the offer: in
+// the protection pass a version is passed over only if it is itself offered
+//@   at if#18 assert passed-over-only-if-offered: imp(deleting, has(candidateRoots, keptName))
+//@   at call:crdt.Load#3 assert protected-unless-offered: !has(candidateRoots, keptName)
 // no node of the handle's own tree is offered for deletion
 //@   ensures nodes-unused: forall j int :: imp(err == nil && 0 <= j && j < len(result1), !linkIn(*s.crdt.Mast, result1[j]))
 //@   ensures-local nodes-are-candidates: forall j int :: imp(err == nil && 0 <= j && j < len(result1), has(candidateBlocks, result1[j]))
